@@ -16,7 +16,7 @@ TRACING = [r"tracing", r"__CALLSITE", r"LevelFilter", r"DefaultCallsite", r"Inte
 NMAX = 3
 
 
-def allow_decision(e3, nets_len, two_families=False):
+def allow_decision(e3, nets_len, two_families=False, via_builder=False):
     """The allowlist as the real pipeline handles it: new_http_listener(handle, addr, allowlist) builds the exporter (whatever it does
     to the list on the way), then check_tcp_allowed(&exporter, stream) decides. Networks and peer are concrete-width symbolic values
     (IPv4: address + prefix length), so code that sorts, truncates, de-duplicates or bisects the list is followed exactly."""
@@ -61,6 +61,26 @@ def allow_decision(e3, nets_len, two_families=False):
     m.update(MN.NET)
     m.update(models.RESULT)
     m.update(models.BASE)
+    if via_builder:
+        # the list is what PrometheusBuilder::add_allowed_address, called once per network, leaves in the builder (the i-th text parses to
+        # the i-th symbolic network)
+        def m_from_str(eng, ctx, f, path, args, dty):
+            k = ctx.statics.get("nparsed", 0)
+            ctx.statics["nparsed"] = k + 1
+            return Enum(0, {0: Agg({0: mknet(k)})}, "Result")
+
+        def m_get_or_insert(eng, ctx, f, path, args, dty):
+            p_ = args[0]
+            o = eng.load_ptr(ctx, p_)
+            if isinstance(o, Enum) and isinstance(o.discr, int) and o.discr == 0:
+                eng.store_ptr(ctx, p_, Enum(1, {1: Agg({0: args[1]})}, "Option"))
+            return Ptr(p_.root, p_.path + (("variant", "Some"), 0))
+        m[r"^<IpNet as FromStr>::from_str$|^IpNet::from_str$"] = m_from_str
+        m[r"^<IpAddr as FromStr>::from_str$|^IpAddr::from_str$"] = lambda *a: Enum(1, {1: Agg({0: Opaque("AddrParseError")})}, "Result")
+        m[r"as AsRef>::as_ref$"] = lambda eng, ctx, f, path, args, dty: args[0]
+        m[r"(^|::)Option::get_or_insert$"] = m_get_or_insert
+        m[r"Error as .*to_string$|as ToString>::to_string$"] = lambda *a: Opaque("string")
+        m[r"BuildError::"] = lambda *a: Opaque("BuildError")
     eng = sym.Engine(P, models=m, opaque=TRACING, loop_bound=L + 3, max_paths=4000)
     eng.merging = False
     MN.install(eng)
@@ -70,7 +90,18 @@ def allow_decision(e3, nets_len, two_families=False):
     lst = Enum(1, {1: Agg({0: MS.lvec(tuple(mknet(i) for i in range(L)))})}, "Option") if configured else Enum(0, {}, "Option")
 
     def script():
-        r = yield ("call", new_b, [Opaque("handle"), Opaque("listen address"), lst])
+        the_list = lst
+        if via_builder:
+            add_b = P.find("PrometheusBuilder", "add_allowed_address")
+            bld = Agg({0: Opaque("cfg"), 1: Enum(0, {}, "Option")})
+            for i in range(L):
+                yield ("setstatic", f"text{i}", Opaque(f"address text {i}"))
+                rb = yield ("call", add_b, [bld, Ptr(("static", f"text{i}"))])
+                if not (isinstance(rb, Enum) and isinstance(rb.discr, int) and rb.discr == 0):
+                    raise sym.Unsupported(f"add_allowed_address did not return Ok: {rb}")
+                bld = rb.v[0].f[0]
+            the_list = bld.f[1]
+        r = yield ("call", new_b, [Opaque("handle"), Opaque("listen address"), the_list])
         if not (isinstance(r, Enum) and r.discr == 0):
             raise sym.Unsupported(f"new_http_listener did not return Ok: {r}")
         fut = r.v[0].f[0]
@@ -95,8 +126,8 @@ def allow_decision(e3, nets_len, two_families=False):
         return eng.as_bool(r)
     allowed = z3.Or(*[z3.And(l.taken(), decision(l.ret)) for l in done] or [z3.BoolVal(False)])
     inside = z3.Or(*[peer_in(i) for i in range(L)]) if L else z3.BoolVal(False)
-    tag = ("none" if not configured else f"n{L}") + ("_v6peer" if two_families else "")
-    bounds = (f"new_http_listener (the exporter it builds) followed by check_tcp_allowed with its closures; allowlist " + ("not configured" if not configured else f"of {L} {'IPv4 or IPv6' if two_families else 'IPv4'} network(s), any address and prefix length 0..32 (nested, overlapping, duplicated, unsorted, with host bits)")
+    tag = ("none" if not configured else f"n{L}") + ("_v6peer" if two_families else "") + ("_via_builder" if via_builder else "")
+    bounds = (("PrometheusBuilder::add_allowed_address once per network (in the order given), then " if via_builder else "") + f"new_http_listener (the exporter it builds) followed by check_tcp_allowed with its closures; allowlist " + ("not configured" if not configured else f"of {L} {'IPv4 or IPv6' if two_families else 'IPv4'} network(s), any address and prefix length 0..32 (nested, overlapping, duplicated, unsorted, with host bits)")
               + ("; peer: ::1 (prefix lengths up to 128 for IPv6 networks)" if two_families else "; peer: any address in 127.0.0.0/8 (so that the case can be replayed over loopback)") + " or unavailable")
 
     def dotted(x):
@@ -531,7 +562,11 @@ def syntax_table(e3):
         raise sym.Unsupported("str::contains with a pattern other than '/' on the address text")
 
     def m_get_or_insert(eng, ctx, f, path, args, dty):
-        return Native("vecref", None)
+        p_ = args[0]
+        o = eng.load_ptr(ctx, p_)
+        if isinstance(o, Enum) and isinstance(o.discr, int) and o.discr == 0:
+            eng.store_ptr(ctx, p_, Enum(1, {1: Agg({0: MS.lvec(())})}, "Option"))
+        return Ptr(p_.root, p_.path + (("variant", "Some"), 0))
 
     def m_push(eng, ctx, f, path, args, dty):
         v = args[1]
@@ -543,7 +578,7 @@ def syntax_table(e3):
     m = {r"^<IpNet as FromStr>::from_str$|^IpNet::from_str$": m_ipnet_from_str, r"^<IpAddr as FromStr>::from_str$|^IpAddr::from_str$": m_ipaddr_from_str,
          r"^<IpNet as From>::from$|^IpNet::from$|^<IpAddr as Into>::into$": m_from_ip, r"as AsRef>::as_ref$": lambda eng, ctx, f, path, args, dty: args[0],
          r"(^|::)str::(.*::)?contains$": m_contains,
-         r"^Vec::new$": lambda *a: Native("vec", None), r"Option::get_or_insert(_with)?$": m_get_or_insert, r"^Vec::push$": m_push,
+         r"^Vec::new$": lambda *a: MS.lvec(()), r"Option::get_or_insert(_with)?$": m_get_or_insert, r"^Vec::push$": m_push,
          r"^<(AddrParseError|PrefixLenError|.*Error) as ToString>::to_string$|Error as .*to_string$": lambda *a: Opaque("string"), r"BuildError::": lambda *a: Opaque("BuildError")}
     m.update(MS.FMT)
     m.update(models.RESULT)
@@ -596,6 +631,7 @@ def syntax_table(e3):
 def run(tier, seed, t0):
     e3 = _e3.E3("C18")
     jobs = [(f"c18_allow_{'none' if n is None else 'n' + str(n)}", (lambda e, n=n: allow_decision(e, n))) for n in ([None, 1, 2, 3] if tier == "quick" else [None, 1, 2, 3, 4])]
+    jobs += [(f"c18_allow_n{n}_via_builder", (lambda e, n=n: allow_decision(e, n, False, True))) for n in ([2] if tier == "quick" else [1, 2, 3])]
     jobs += [(f"c18_allow_n{n}_v6peer", (lambda e, n=n: allow_decision(e, n, True))) for n in ([1, 2] if tier == "quick" else [1, 2, 3])]
     jobs += [(f"c18_loop_{'none' if n is None else 'n' + str(n)}", (lambda e, n=n: serve_loop(e, n))) for n in ([None, 2] if tier == "quick" else [None, 1, 2, 3])]
     for nm, fn in jobs + [("c18_response", response_table), ("c18_syntax", syntax_table)]:
